@@ -110,6 +110,7 @@ type PoolMsg struct {
 	Byz       bool
 	Msg       *specqbft.SignedMessage
 	Delivered map[spectypes.OperatorID]bool
+	Accepted  map[spectypes.OperatorID]bool // delivered and processed without error
 }
 
 // Event is what one delivery / timeout did, for the oracles.
@@ -153,10 +154,11 @@ type Sim struct {
 	Log     []string
 	Events  []Event
 	// counters for class histograms
-	WantRoots     bool
-	ByzAccepted   int
-	MaxRound      specqbft.Round
-	LearntDecided int
+	WantRoots       bool
+	ForwardAccepted bool
+	ByzAccepted     int
+	MaxRound        specqbft.Round
+	LearntDecided   int
 }
 
 var logger = zap.NewNop()
@@ -241,7 +243,7 @@ func (s *Sim) collect(o *Operator) []*PoolMsg {
 }
 
 func (s *Sim) add(from spectypes.OperatorID, byz bool, m *specqbft.SignedMessage) *PoolMsg {
-	pm := &PoolMsg{Idx: len(s.Pool), From: from, Byz: byz, Msg: m, Delivered: map[spectypes.OperatorID]bool{}}
+	pm := &PoolMsg{Idx: len(s.Pool), From: from, Byz: byz, Msg: m, Delivered: map[spectypes.OperatorID]bool{}, Accepted: map[spectypes.OperatorID]bool{}}
 	s.Pool = append(s.Pool, pm)
 	return pm
 }
@@ -285,6 +287,9 @@ func (s *Sim) Deliver(pm *PoolMsg, id spectypes.OperatorID) *Event {
 	ev := Event{Kind: "deliver", Op: id, Pool: pm.Idx, Before: s.Snap(id)}
 	ev.Returned, ev.Err = o.Ctrl.ProcessMsg(logger, clone(pm.Msg))
 	pm.Delivered[id] = true
+	if ev.Err == nil {
+		pm.Accepted[id] = true
+	}
 	if ev.Returned != nil {
 		o.Returned = append(o.Returned, ev.Returned)
 	}
@@ -482,6 +487,14 @@ func (s *Sim) BuildForge(f *Forge) *specqbft.SignedMessage {
 		if v, ok := Values[f.Value]; ok {
 			return v
 		}
+		if f.Value == "last" { // the value of the most recent proposal for this round seen on the network
+			for i := len(s.Pool) - 1; i >= 0; i-- {
+				m := s.Pool[i].Msg
+				if m.Message.MsgType == specqbft.ProposalMsgType && m.Message.Round == round && m.Message.Height == s.Height && len(m.FullData) > 0 {
+					return m.FullData
+				}
+			}
+		}
 		return def
 	}
 	byzSign := func(id spectypes.OperatorID, m *specqbft.Message) *specqbft.SignedMessage {
@@ -663,7 +676,11 @@ func (s *Sim) FlushCorrect(order func([]*PoolMsg) []*PoolMsg, onEvent func(*Even
 		var batch []*PoolMsg
 		for _, pm := range s.Pool {
 			if pm.Byz {
-				continue
+				// gossip forwarding (optional): a decided certificate that some correct operator accepted is
+				// re-published by that operator's pubsub layer, whoever aggregated it
+				if !(s.ForwardAccepted && len(pm.Msg.Signers) > 1 && len(pm.Accepted) > 0) {
+					continue
+				}
 			}
 			for _, id := range s.Correct {
 				if !pm.Delivered[id] {
